@@ -278,6 +278,10 @@ func (w *WebsocketConnection) writeMessage(messageType int, data []byte) bool {
 	err := w.writeMessageWithoutErrorHandling(messageType, data)
 	if err != nil {
 		// ignore write errors if the connection got closed
+		if w.isConnClosed() {
+			return false
+		}
+
 		w.closeWithError(err, "error writing to websocket: ")
 		logging.Log().Debug("WRITE ERROR: ", err)
 		return false
